@@ -288,6 +288,7 @@ template<class ContextPtr, class Scalar, class A2D, class B2D,
 auto gemm(ContextPtr ctxtp, Scalar s, A2D const& a, B2D const& b)  // NOLINT(readability-identifier-length) BLAS naming
 ->gemm_range<ContextPtr, Scalar, typename A2D::const_iterator, typename B2D::const_iterator, typename A2D::decay_type/*B2D*/>
 {
+	if(! a.is_empty()) {assert( size(~a) == size(b) );}  // as in the in-place gemm  // NOLINT(cppcoreguidelines-pro-bounds-array-to-pointer-decay,hicpp-no-array-decay)
 	return
 		gemm_range<ContextPtr, Scalar, typename A2D::const_iterator, typename B2D::const_iterator, typename A2D::decay_type/*B2D*/>
 			(ctxtp, s, a.begin(), a.end(), b.begin())
